@@ -26,7 +26,8 @@ def check(c):
     # conformance of the external contract
     A = rng.normal(size=(n, 3)); B = rng.normal(size=(n, 3)); R = orthogonal_procrustes(A, B)[0]
     expect(np.allclose(R.T @ R, np.eye(3), atol=1e-9) and all(np.linalg.norm(A @ R - B) <= np.linalg.norm(A @ rand_orth(rng, 3) - B) + 1e-9 for _ in range(5)), 'contract:orthogonal_procrustes')
-    est_lin = Ridge(alpha=1e-8, fit_intercept=False) if c['user'] else None
+    ua = [1e-8, 40.0][c['seed'] % 2]          # user-supplied estimators: also strongly regularised ones (their prediction differs visibly from the targets)
+    est_lin = Ridge(alpha=ua, fit_intercept=False) if c['user'] else None
     if c['user'] and c['proj']:
         # a reused user-supplied estimator: first fit on other data (C18 quantifier: user-supplied linear estimators)
         OrthogonalRegression(use_orthogonal_projector=True, linear_estimator=est_lin).fit(rng.normal(size=(n, m)), rng.normal(size=(n, p)))
@@ -37,16 +38,16 @@ def check(c):
         expect(Om.shape == (w, w) and np.allclose(Om.T @ Om, np.eye(w), atol=1e-8) and np.allclose(Om @ Om.T, np.eye(w), atol=1e-8), sig('post[C18]:weight-matrix-is-orthogonal'), f"shape {Om.shape}")
         Xp = np.pad(X, [(0, 0), (0, w - m)]); Yp = np.pad(Y, [(0, 0), (0, w - p)])
         res = np.linalg.norm(Xp @ Om - Yp)
-        for t in range(6):
-            Q = rand_orth(rng, w) if t % 2 else Om @ rand_orth_small(rng, w)
-            expect(res <= np.linalg.norm(Xp @ Q - Yp) + 1e-8, sig('post[C18]:training-residual-is-minimal-over-all-orthogonal-maps-of-the-padded-size'))
+        for t in range(7):
+            Q = orthogonal_procrustes(Xp, Yp)[0] if t == 6 else (rand_orth(rng, w) if t % 2 else Om @ rand_orth_small(rng, w))
+            expect(res <= np.linalg.norm(Xp @ Q - Yp) + 1e-8 * max(1.0, res), sig('post[C18]:training-residual-is-minimal-over-all-orthogonal-maps-of-the-padded-size'), f"competitor kind {t}")
         Xn = rng.normal(size=(5, m)); P = est.predict(Xn)
         expect(np.allclose(np.linalg.norm(P, axis=1), np.linalg.norm(Xn, axis=1), atol=1e-8), sig('post[C18]:predictions-preserve-the-norm-of-their-inputs'))
         # predict pads new data exactly as fit padded the training data (zeros on the right) and applies the rotation
         expect(np.allclose(P, np.pad(Xn, [(0, 0), (0, w - m)]) @ Om, atol=1e-9), sig('post[C18]:predict-pads-new-data-identically-and-applies-the-rotation'), f"max dev {np.max(np.abs(P - np.pad(Xn, [(0, 0), (0, w - m)]) @ Om))}")
         expect(np.allclose(est.predict(X), Xp @ Om, atol=1e-9), sig('post[C18]:predict-on-the-training-data-is-the-fitted-rotation-of-the-padded-training-data'))
     else:
-        lin = (Ridge(alpha=1e-8, fit_intercept=False) if c['user'] else LinearRegression()).fit(X, Y)
+        lin = (Ridge(alpha=ua, fit_intercept=False) if c['user'] else LinearRegression()).fit(X, Y)
         W = lin.coef_.T.reshape(m, -1)
         U, s, Vt = np.linalg.svd(W, full_matrices=False)
         rk = int(np.sum(s > 1e-10 * max(1.0, s[0])))
@@ -54,9 +55,11 @@ def check(c):
             expect(np.allclose(Om.T @ Om, Vt.T @ Vt, atol=1e-7) and np.allclose(Om @ Om.T, U @ U.T, atol=1e-7), sig('post[C18]:weights-are-a-partial-isometry'), f"max dev {np.max(np.abs(Om.T @ Om - Vt.T @ Vt))}")
             Rr = U.T @ Om @ Vt.T
             res = np.linalg.norm(X @ U @ Rr - Y @ Vt.T)
-            for t in range(6):
-                Q = rand_orth(rng, len(s)) if t % 2 else Rr @ rand_orth_small(rng, len(s))
-                expect(res <= np.linalg.norm(X @ U @ Q - Y @ Vt.T) + 1e-8, sig('post[C18]:training-residual-in-the-reduced-spaces-is-minimal-over-all-rotations-between-them'))
+            for t in range(7):
+                # competitors: random rotations, small perturbations of the fitted one, and the Procrustes solution between the reduced features and the reduced TARGETS
+                Q = orthogonal_procrustes(X @ U, Y @ Vt.T)[0] if t == 6 else (rand_orth(rng, len(s)) if t % 2 else Rr @ rand_orth_small(rng, len(s)))
+                expect(res <= np.linalg.norm(X @ U @ Q - Y @ Vt.T) + 1e-8 * max(1.0, res), sig('post[C18]:training-residual-in-the-reduced-spaces-is-minimal-over-all-rotations-between-them'),
+                       f"residual {res} vs competitor {np.linalg.norm(X @ U @ Q - Y @ Vt.T)} (competitor kind {t})")
         Xn = rng.normal(size=(5, m)); P = est.predict(Xn)
         expect(np.all(np.linalg.norm(P, axis=1) <= np.linalg.norm(Xn, axis=1) * (1 + 1e-9) + 1e-12), sig('post[C18]:predictions-never-have-a-larger-norm-than-their-inputs'))
         expect(np.allclose(P, Xn @ Om, atol=1e-10), sig('post[C18]:predict-is-X-times-the-weights'))
